@@ -15,6 +15,16 @@ def generate_all():
     except rust_abi.TranslateError as ex:
         errs.append('rust_abi: %s' % ex)
     write_if_changed(os.path.join(COQ, 'Spec/KernelABI.v'), kernel_spec.emit())
+    try:
+        import server_dispatch
+        write_if_changed(os.path.join(COQ, 'Gen/RustDispatch.v'), server_dispatch.emit_coq(server_dispatch.translate(REPO)))
+    except rust_abi.TranslateError as ex:
+        errs.append('server_dispatch: %s' % ex)
+    try:
+        import bytes_delegation
+        bytes_delegation.generate(REPO)
+    except Exception as ex:
+        errs.append('bytes_delegation: %s' % ex)
     return errs
 
 if __name__ == '__main__':
